@@ -5,15 +5,15 @@ ID = 'C12'
 UNITS = {'lru': dict(wrap='wrap.cc', shim=True, new_block=64, cxxflags=['-DVERIF_UMAP_CAP=4', '-DVERIF_UMAP_NODES'])}
 
 BOUNDS = ('LRUSet<int> and LRUMap<int,int>, two instances each, keys {0,1,2}, sizes {0,1,2}, values {0,1,2}. '
-          '(1) histories from two fresh instances: every sequence of k operations (k<=3 quick, k<=4 thorough; at k=4 only the '
-          'target-instance patterns listed in the query names) over the full alphabet (set: insert, emplace, erase, touch(k), '
+          '(1) histories from two fresh instances: every sequence of k operations (quick: k<=2 with all target-instance patterns plus one k=3 pattern per class; '
+          'thorough: k<=3 with all patterns plus k=4 for the patterns listed in the query names) over the full alphabet (set: insert, emplace, erase, touch(k), '
           'touch(k,size), touch(k,negative), change_size, peek, evict_object, clear, swap; map: insert(K&&,V&&), emplace, erase, '
           'at, item_size, change_size(touch=true/false), touch x3, evict_object, clear, swap, empty), symbolic key/size/value, '
-          'target instance per step concrete (all 2^k patterns for k<=3), then a full drain of both instances. '
+          'target instance per step concrete, then a full drain of both instances. '
           '(2) inductive step: EVERY well-formed state of the two instances with up to 3 entries each (symbolic distinct keys, '
           'sizes, values, recency order and hash-map insertion order; state assembled directly from nodes and links), ONE '
           'symbolic operation on instance 0 (swap partner: instance 1), then the complete link structure of both instances is '
-          'compared with the reference => histories of any length over 3 keys. '
+          'compared with the reference => histories of any length over 3 keys (thorough: all 16 size combinations; quick: 5 of them). '
           '(3) heap: CBMC pointer checks (use-after-free, invalid free, double free) in every query; --memory-leak-check on '
           'exception-free histories/steps that end with destruction of populated instances.')
 STUBS = ['std::unordered_map -> engine/shim/unordered_map_nodes: node-per-element model (operator new/delete per element, stable addresses, '
